@@ -42,6 +42,7 @@ TYPES = {
     "VARCHAR": ("TEXT", "VARCHAR(16777216)", None, None, 16777216, 2),
     "VARCHAR(10)": ("TEXT", "VARCHAR(10)", None, None, 10, 2),
     "VARCHAR(255)": ("TEXT", "VARCHAR(255)", None, None, 255, 2),
+    "VARCHAR(300)": ("TEXT", "VARCHAR(300)", None, None, 300, 2),
     "STRING": ("TEXT", "VARCHAR(16777216)", None, None, 16777216, 2),
     "BOOLEAN": ("BOOLEAN", "BOOLEAN", None, None, None, 13),
     "DATE": ("DATE", "DATE", None, None, None, 3),
@@ -88,6 +89,9 @@ def gen_cases(tier: str, seed: int):
                      ["add_column", "DB1", "S1", "T2", "A", "VARCHAR(10)", True], ["add_column", "DB1", "S1", "T2", "F", "VARCHAR(10)", True],
                      ["drop_table", "DB1", "S1", "T1"], ["create_view", "DB1", "S1", "T1", "T2"], ["drop_view", "DB1", "S1", "T1"],
                      ["create_table", "DB1", "S1", "T1", [["A", "INT", False]], None, False, False, False]]}
+    yield {"steps": [["create_table", "DB1", "S1", "T1", [["A", "VARCHAR(10)", False], ["B", "VARCHAR(255)", False], ["N", "INT", False]], "c", False, False, False],
+                     ["alter_type", "DB1", "S1", "T1", "A", "VARCHAR(300)"], ["alter_type", "DB1", "S1", "T1", "B", "VARCHAR"], ["add_column", "DB1", "S1", "T1", "A", "VARCHAR(10)", True],
+                     ["create_table", "DB2", "S1", "T1", [["A", "VARCHAR(10)", False]], None, False, False, False], ["alter_type", "DB2", "S1", "T1", "A", "VARCHAR(255)"]]}
     # same table name in three places; the namesakes are dropped / re-created one by one
     cols = [["A", "VARCHAR(10)", False], ["N", "NUMBER(10,2)", False]]
     yield {"steps": [["create_table", "DB1", "S1", "T1", cols, "orders of s1", False, False, False], ["create_table", "DB1", "S2", "T1", [["A", "VARCHAR(255)", False]], "of s2", False, False, False],
@@ -117,8 +121,10 @@ def gen_cases(tier: str, seed: int):
                 steps.append(["drop_column", db, sc, t, c])
                 if r.random() < 0.5:  # the same name comes back with another declaration
                     steps.append(["add_column", db, sc, t, c, r.choice(TNAMES)])
-            elif x < 0.66:
+            elif x < 0.63:
                 steps.append(["rename_column", db, sc, t, r.choice(COLN), r.choice(COLN + ["G"])])
+            elif x < 0.66:
+                steps.append(["alter_type", db, sc, t, r.choice(COLN), r.choice(["VARCHAR(255)", "VARCHAR", "VARCHAR(300)"])])
             elif x < 0.74:
                 steps.append(["rename_table", db, sc, t, r.choice(TABS + ["T9"])])
             elif x < 0.86:
@@ -233,6 +239,13 @@ def _run(case: dict, env: core.Env, fs: Any) -> None:
             if model[key]["pk"] == c or _has_view_on(model, key):
                 continue
             sql = f"ALTER TABLE {fq} DROP COLUMN {c}"
+        elif op == "alter_type":
+            # a text column widened in place
+            c, ty = st[4], st[5]
+            col = next((x for x in model[key]["cols"] if x[0] == c), None) if exists and model[key]["kind"] == "table" else None
+            if col is None or not col[1].startswith(("VARCHAR", "STRING")) or _has_view_on(model, key) or model[key]["pk"] == c:
+                continue
+            sql = f"ALTER TABLE {fq} ALTER COLUMN {c} SET DATA TYPE {ty}"
         elif op == "rename_column":
             c, c2 = st[4], st[5]
             if not exists or model[key]["kind"] != "table" or not any(x[0] == c for x in model[key]["cols"]) or any(x[0] == c2 for x in model[key]["cols"]):
@@ -327,6 +340,11 @@ def _run(case: dict, env: core.Env, fs: Any) -> None:
             altered = True
         elif op == "drop_column":
             model[key]["cols"] = [x for x in model[key]["cols"] if x[0] != st[4]]
+            altered = True
+        elif op == "alter_type":
+            for x in model[key]["cols"]:
+                if x[0] == st[4]:
+                    x[1] = st[5]
             altered = True
         elif op == "rename_column":
             for x in model[key]["cols"]:
